@@ -22,7 +22,7 @@ pub enum Faults { None, JumpAt(Vec<u64>), EveryReading }
 #[derive(Serialize, Deserialize, Clone, Debug)]
 pub struct HybCase { pub hash_seed: u64, pub seeds: Vec<SeedDecl>, pub nodes: Vec<NodeDecl>, pub cfg: Cfg, pub step_ns: u64, pub faults: Faults, #[serde(default)] pub cap: u64, #[serde(default)] pub pipeline: Option<Pipeline> }
 #[derive(Serialize, Deserialize, Clone, Debug)]
-pub struct Pipeline { pub seeded: Vec<(models::datalog::Fact, f64)>, pub certain: Vec<models::datalog::Fact>, pub rules: Vec<models::datalog::Rule> }
+pub struct Pipeline { pub seeded: Vec<(models::datalog::Fact, f64)>, pub certain: Vec<models::datalog::Fact>, pub rules: Vec<models::datalog::Rule>, #[serde(default)] pub group: Vec<(models::datalog::Fact, f64)> }
 
 pub struct C08;
 
@@ -256,6 +256,7 @@ impl Prop for C08 {
         if let Some(p) = &c.pipeline {
             for x in shrink_vec(&p.seeded) { if !x.is_empty() { out.push(HybCase { pipeline: Some(Pipeline { seeded: x, ..p.clone() }), ..c.clone() }); } }
             for x in shrink_vec(&p.certain) { out.push(HybCase { pipeline: Some(Pipeline { certain: x, ..p.clone() }), ..c.clone() }); }
+            if !p.group.is_empty() { out.push(HybCase { pipeline: Some(Pipeline { group: vec![], ..p.clone() }), ..c.clone() }); }
             for x in shrink_vec(&p.rules) { if !x.is_empty() { out.push(HybCase { pipeline: Some(Pipeline { rules: x, ..p.clone() }), ..c.clone() }); } }
             if !matches!(c.faults, Faults::None) { out.push(HybCase { faults: Faults::None, ..c.clone() }); }
             if c.step_ns != 1000 { out.push(HybCase { step_ns: 1000, ..c.clone() }); }
@@ -304,7 +305,10 @@ fn gen_pipeline(r: &mut Rng) -> Pipeline {
         let neg = if r.chance(1, 6) { vec![(r.pick(&used).clone(), "b0".to_string(), r.pick(&used).clone())] } else { vec![] };
         rules.push(dm::Rule { prem, neg, conc: vec![(r.pick(&used).clone(), format!("d{}", head_layer), r.pick(&used).clone())], filt: vec![] });
     }
-    Pipeline { seeded, certain, rules }
+    // optionally one exclusive group (exactly one member holds; probabilities sum to one)
+    let mut group: Vec<(Fact, f64)> = vec![];
+    if r.chance(1, 3) { let k = 2 + r.usize(2); let w: Vec<u64> = (0..k).map(|_| 1 + r.below(6)).collect(); let tot: u64 = w.iter().sum(); while group.len() < k { let f = (node(r), format!("b{}", r.usize(2)), node(r)); if !seeded.iter().any(|(g, _)| *g == f) && !certain.contains(&f) && !group.iter().any(|(g, _)| *g == f) { let i = group.len(); group.push((f, w[i] as f64 / tot as f64)); } } }
+    Pipeline { seeded, certain, rules, group }
 }
 fn exec_pipeline(c: &HybCase, p: &Pipeline, ctx: &mut Ctx) -> Option<Violation> {
     use datalog::reasoning::Reasoner;
@@ -321,6 +325,7 @@ fn exec_pipeline(c: &HybCase, p: &Pipeline, ctx: &mut Ctx) -> Option<Violation> 
         let enc = |re: &Reasoner, t: &str| re.dictionary.write().unwrap().encode(t);
         let mut specs = vec![];
         for (i, (f, pr)) in p.seeded.iter().enumerate() { let t = Triple { subject: enc(&re, &f.0), predicate: enc(&re, &f.1), object: enc(&re, &f.2) }; specs.push(SeedSpec::Independent { triple: t, prob: *pr, seed_id: i as u32 }); }
+        if !p.group.is_empty() { let choices = p.group.iter().enumerate().map(|(i, (f, pr))| ExclusiveChoice { triple: Triple { subject: enc(&re, &f.0), predicate: enc(&re, &f.1), object: enc(&re, &f.2) }, prob: *pr, choice_id: 100 + i as u32 }).collect(); specs.push(SeedSpec::ExclusiveGroup { group_id: 7, choices }); }
         for f in &p.certain { re.add_abox_triple(&f.0, &f.1, &f.2); }
         for ru in &p.rules {
             let term = |re: &Reasoner, x: &str| if x.starts_with('?') { Term::Variable(x[1..].to_string()) } else { Term::Constant(enc(re, x)) };
@@ -334,12 +339,17 @@ fn exec_pipeline(c: &HybCase, p: &Pipeline, ctx: &mut Ctx) -> Option<Violation> 
     let n = p.seeded.len();
     let certain: BTreeSet<Fact> = p.certain.iter().cloned().collect();
     let mut prob: std::collections::BTreeMap<Fact, f64> = std::collections::BTreeMap::new();
+    let gchoices: Vec<Option<usize>> = if p.group.is_empty() { vec![None] } else { (0..p.group.len()).map(Some).collect() };
     for w in 0..(1u32 << n) {
-        let mut weight = 1.0; let mut facts = certain.clone();
-        for (i, (f, pr)) in p.seeded.iter().enumerate() { if (w >> i) & 1 == 1 { weight *= pr; facts.insert(f.clone()); } else { weight *= 1.0 - pr; } }
-        if weight == 0.0 { continue; }
-        for f in dm::stratified_model(&facts, &p.rules) { *prob.entry(f).or_insert(0.0) += weight; }
+        for gc in &gchoices {
+            let mut weight = 1.0; let mut facts = certain.clone();
+            for (i, (f, pr)) in p.seeded.iter().enumerate() { if (w >> i) & 1 == 1 { weight *= pr; facts.insert(f.clone()); } else { weight *= 1.0 - pr; } }
+            if let Some(g) = gc { weight *= p.group[*g].1; facts.insert(p.group[*g].0.clone()); }
+            if weight == 0.0 { continue; }
+            for f in dm::stratified_model(&facts, &p.rules) { *prob.entry(f).or_insert(0.0) += weight; }
+        }
     }
+    if !p.group.is_empty() { ctx.hit("probe.pipeline_with_exclusive_group"); }
     let run = |step: u64, jump: u64| -> Option<(Result<Vec<(Fact, HybridProbabilityResult)>, String>, u64, bool)> {
         let (mut re, snap) = build()?;
         kolibrie_verif_rt::hybrid_clock::install(step, jump);
@@ -362,7 +372,7 @@ fn exec_pipeline(c: &HybCase, p: &Pipeline, ctx: &mut Ctx) -> Option<Violation> 
             if let Some(v) = judge_all(res, "fault-free") { return Some(v); }
             // every fact of the model that is not a seed or certain fact must have been derived and evaluated
             let derived: BTreeSet<&Fact> = res.iter().map(|(f, _)| f).collect();
-            for f in prob.keys() { if !certain.contains(f) && !p.seeded.iter().any(|(g, _)| g == f) && prob[f] > 1e-12 && !derived.contains(f) { return Some(Violation::new("pipeline-derivable-fact-not-evaluated", format!("fact {:?} is derivable with probability {} but infer_new_facts_with_hybrid returned no result for it", f, prob[f]))); } }
+            for f in prob.keys() { if !certain.contains(f) && !p.seeded.iter().any(|(g, _)| g == f) && !p.group.iter().any(|(g, _)| g == f) && prob[f] > 1e-12 && !derived.contains(f) { return Some(Violation::new("pipeline-derivable-fact-not-evaluated", format!("fact {:?} is derivable with probability {} but infer_new_facts_with_hybrid returned no result for it", f, prob[f]))); } }
             if !res.is_empty() { ctx.hit("probe.pipeline_derived_facts_evaluated"); ctx.nontrivial(kolibrie_verif_rt::log::fnv(&format!("{:?}{:?}", p.seeded, p.rules))); }
         }
     }
